@@ -143,6 +143,9 @@ func c19Round(c *run.C) {
 						res.pair, res.codec, res.mine = pi, ci, mine
 						// parse own bytes -> own unfolder (target type shared, first use compiles its unfolder)
 						target := reflect.New(p.t)
+						if rr.Bool() {
+							u.Reset() // the documented way to re-use an unfolder for another target
+						}
 						if err := u.SetTarget(target.Interface()); err != nil {
 							res.err = "SetTarget: " + err.Error()
 							return
